@@ -17,7 +17,7 @@ from .. import common, dating, gen, metadata_corr as mc
 from ..common import Result, Violation
 
 META = dict(
-    level='Lean theorems over a model of EstimationMethod.set_time_metadata, for every table (any rows, any mixture of empty/non-empty cells), every schema validator and every value type: set_metadata=False leaves the table identical; None merges mn/vr into every row keeping all other fields when the schema validates the merged rows, installs the default schema on a blank table, otherwise leaves the table identical and takes the warning exit; True always writes (merge, or clear + default schema); the result is always one of untouched / merged / replaced (no partial writes); whenever written, row i carries mean[i], var[i]. Tie: exhaustive over set_metadata x 20 schema/content classes x node/mutation table x 3 methods against real date() calls, decoded row by row, plus random JSON schemas. Outside: tskit codecs/jsonschema (contract, exercised by the tie); rows that do not decode to objects; methods that yield no variance write nothing even with set_metadata=True (stated as a theorem, reported as scope).',
+    level='Lean theorems over a model of EstimationMethod.set_time_metadata, for every table (any rows, any mixture of empty/non-empty cells), every schema validator and every value type: set_metadata=False leaves the table identical; None merges mn/vr into every row keeping all other fields when the schema validates the merged rows, installs the default schema on a blank table, otherwise leaves the table identical and takes the warning exit; True always writes (merge, or clear + default schema); the result is always one of untouched / merged / replaced (no partial writes); whenever written, row i carries mean[i], var[i]. Tie: exhaustive over set_metadata x 24 schema/content classes x node/mutation table x 3 methods against real date() calls, decoded row by row, plus random JSON schemas. Outside: tskit codecs/jsonschema (contract, exercised by the tie); rows that do not decode to objects; methods that yield no variance write nothing even with set_metadata=True (stated as a theorem, reported as scope).',
     note='Lean kernel + {propext, Classical.choice, Quot.sound}; tskit metadata codecs and jsonschema by contract; correspondence exhaustive on the abstract lattice, sampled on random schemas',
     technique='refinement of the code path to a 4-way spec + exhaustive model/implementation correspondence on the abstract domain',
     ref='§3 C32',
@@ -303,7 +303,11 @@ def compare_with_model(res, pending, stats):
             res.corr_failures.append(Violation("metadata-model-rejected-case", f"{p['label']}: model answered bad-op / nothing",
                                                dict(p["replay"], model_case=p["text"]), "B"))
             continue
-        if m != p["impl"]:
+        if m != p["impl"] and m["outcome"] == "merged" and p["impl"]["outcome"] == "untouched" \
+                and m["schema"] == p["impl"]["schema"] and m["cells"] == p["impl"]["cells"]:
+            # rewriting identical values leaves identical bytes: "merged" and "untouched" are the same observable table
+            stats["merged_with_identical_bytes"] = stats.get("merged_with_identical_bytes", 0) + 1
+        elif m != p["impl"]:
             diff = "outcome" if m["outcome"] != p["impl"]["outcome"] else ("schema" if m["schema"] != p["impl"]["schema"] else "rows")
             res.corr_failures.append(Violation(
                 "metadata-model-differs",
@@ -331,7 +335,7 @@ def check_hd(stats):
 
 def new_stats():
     return dict(methods={}, raised={}, oracle_classes={}, impl_outcomes={}, model_outcomes={}, undecodable=0,
-                has_variance={}, hyp_len_ok=0, hyp_len_total=0, set_metadata_true_but_no_variance=0, classes=0, pairs=0, random_cases=0)
+                has_variance={}, hyp_len_ok=0, hyp_len_total=0, set_metadata_true_but_no_variance=0, classes=0, pairs=0, random_cases=0, redate_cases=0)
 
 
 def lattice(ctx, res, stats, pending, rng, all_pairs):
@@ -354,6 +358,37 @@ def lattice(ctx, res, stats, pending, rng, all_pairs):
                 cid = f"L{i}_{j}_{mc.SM[sm]}_{method[:3]}"
                 label = f"nodes={classes[i][0]} mutations={classes[j][0]} set_metadata={sm} {method}"
                 one_call(res, stats, pending, cid, ts_in, sm, method, method_kw(method, info), ids, label)
+
+
+def redate_sequences(ctx, res, stats, pending, rng):
+    """The multi-step route to the default-schema classes: date a tree sequence that has no schemas (tsdate installs its
+    default node/mutation schemas), let the user add keys of their own to the rows under those schemas, date again."""
+    import tskit
+    ts, info = base_ts(rng)
+    first = dating.run_date(ts, method="variational_gamma", **method_kw("variational_gamma", info))
+    if not first["ok"]:
+        stats["raised"][first["exc"]] = stats["raised"].get(first["exc"], 0) + 1
+        return
+    t = first["out"].dump_tables()
+    t.provenances.clear()
+    for tname in ("nodes", "mutations"):
+        tb = getattr(t, tname)
+        schema = tb.metadata_schema
+        rows = []
+        for i, b in enumerate(tskit.unpack_bytes(tb.metadata, tb.metadata_offset)):
+            d = schema.decode_row(bytes(b))
+            d.update({"name": f"{tname[0]}{i}", "tags": ["x", i]} if i % 3 else {"rsid": f"rs{i}"})
+            if i % 2:
+                d["mn"] = -1.0 - i       # an edited estimate: re-dating must overwrite it (and makes the rewrite observable)
+            rows.append(schema.validate_and_encode_row(d))
+        tb.packset_metadata(rows)
+    ts_in = t.tree_sequence()
+    ids = dict(nodes="default", mutations="default")
+    for sm in (False, None, True):
+        for method in mc.METHODS:
+            label = f"re-dating a tsdate-dated ts whose rows gained user keys (default schemas) set_metadata={sm} {method}"
+            stats["redate_cases"] += 1
+            one_call(res, stats, pending, f"S_{mc.SM[sm]}_{method[:3]}", ts_in, sm, method, method_kw(method, info), ids, label)
 
 
 def randoms(ctx, res, stats, pending, rng, count):
@@ -381,14 +416,15 @@ def run(ctx):
     lattice(ctx, res, stats, pending, ctx.rng(1), all_pairs=(ctx.tier == "thorough"))
     if ctx.tier == "thorough":
         lattice(ctx, res, stats, pending, ctx.rng(4), all_pairs=False)
+    redate_sequences(ctx, res, stats, pending, ctx.rng(6))
     randoms(ctx, res, stats, pending, ctx.rng(2), ctx.n(60, 1500))
     compare_with_model(res, pending, stats)
     res.exhaustive = True
-    res.rule = ("Exhaustive over the abstract domain set_metadata {False,None,True} x 20 schema/content classes (no schema empty/raw "
-                "bytes, permissive JSON empty/content/stale mn,vr/mixed/empty objects, default schema re-dated, required-field, "
+    res.rule = ("Exhaustive over the abstract domain set_metadata {False,None,True} x 24 schema/content classes (no schema empty/raw "
+                "bytes, permissive JSON empty/content/stale mn,vr/mixed/empty objects, tsdate's own default schema with {mn,vr} / {mn,vr,other keys} / other keys only / some rows / empty, required-field, "
                 "additionalProperties=false with/without mn,vr, mn typed string, struct with/only/without mn,vr, a table whose LAST row alone "
                 "fails validation) x {nodes, mutations} x 3 methods (each class on both tables; all class pairs in the thorough tier), real "
-                "date() calls; every set_time_metadata call's pre/post table compared with the Lean model row by row; plus random JSON schemas "
+                "date() calls, plus the multi-step route (date a schema-less ts, add user keys under the installed default schemas, date again); every set_time_metadata call's pre/post table compared with the Lean model row by row; plus random JSON schemas "
                 "with random raw rows. Non-trivial = the call merged, replaced or warned (not the untouched exit); distinct by (case, table).")
     stats["hyp_len_rate"] = f"{stats['hyp_len_ok']}/{stats['hyp_len_total']}"
     res.extra = dict(input_distribution=stats, hypothesis_hit_rates=dict(
